@@ -157,6 +157,7 @@ type c19Check struct {
 	mu        sync.Mutex
 	obs       map[string]int // observer -> observations made
 	notObs    map[string]int // reasons an observer could not observe
+	disagree  map[string]int // violations by key and way of observation
 	classes   map[string]int
 	maxCount  uint64
 	seq       int64
@@ -171,6 +172,11 @@ func (c *c19Check) count(m map[string]int, k string) {
 
 func (c *c19Check) violate(p c19Pair, group, observer, what string, detail map[string]any) {
 	key := p.class() + ":" + observer
+	if how, ok := detail["how"].(string); ok {
+		c.count(c.disagree, key+" <- "+how)
+	} else {
+		c.count(c.disagree, key)
+	}
 	cs := map[string]any{"size": p.Size, "chunk_size": p.CS, "group": group, "observer": observer}
 	c.R.Violate(key, what, cs, detail)
 }
@@ -709,7 +715,15 @@ func runC19(e *Env) {
 		"(size 0..300 x chunk size 1..64), the boundary pairs and the first 100000 random pairs (later random pairs are evaluated but not listed as keys); " +
 		"every pair is checked against the real sender helpers, the other observers (sidecar, receivers, legacy pipeline) where the count makes them affordable"
 	base := e.Seed ^ vk.HashStr("c19"+e.Tier)
-	c := &c19Check{R: R, work: e.Work, obs: map[string]int{}, notObs: map[string]int{}, classes: map[string]int{}}
+	// The observers create and remove ~15 files and directories per pair; on a journaling file
+	// system that is 3-4x slower than the arithmetic deserves, so a tmpfs is used when there is one.
+	work, workFS := e.Work, "scratch directory of the check"
+	if d, err := os.MkdirTemp("/dev/shm", "verif-c19-"); err == nil {
+		work, workFS = d, "tmpfs (/dev/shm), removed at exit"
+		defer os.RemoveAll(d)
+	}
+	R.SetExtra("work_dir", workFS)
+	c := &c19Check{R: R, work: work, obs: map[string]int{}, notObs: map[string]int{}, disagree: map[string]int{}, classes: map[string]int{}}
 	note := func(p c19Pair, n uint32) {
 		c.mu.Lock()
 		c.classes[p.class()]++
@@ -845,6 +859,7 @@ func runC19(e *Env) {
 	R.SetExtra("pairs", map[string]any{"small_domain_exhaustive": smallDone, "small_domain_planned": len(small), "boundary": len(bnd), "random": randSeen})
 	R.SetExtra("observations_per_observer", c.obs)
 	R.SetExtra("observer_could_not_observe", c.notObs)
+	R.SetExtra("disagreements_by_key_and_observation", c.disagree)
 	R.SetExtra("pair_classes", c.classes)
 	R.SetExtra("largest_chunk_count_seen", c.maxCount)
 	R.SetExtra("boundary_pairs", bndList)
